@@ -48,8 +48,13 @@ PROPS["C01"]["level_text"] += " " + (
     "into an array that satisfies NodesOK; `path_commands_lockstep` composes the two (sound nodes -> ComputeShortestPathFromNodes -> BrotliZopfliCreateCommands -> cmdOK + lockstep + replay = hist ++ mb)."
 )
 PROPS["C01"]["level_note"] += " " + (
-    "Zopfli theorems: `AllBack` (every written node sound relative to its own backward chain) is a HYPOTHESIS of path_commands_lockstep — that the dynamic programme (UpdateNodes / EvaluateNode inside "
-    "BrotliZopfliComputeShortestPath / ZopfliIterate) establishes it for sound matches is not proved yet (BV/Lemmas/ZopfliInv.lean holds the invariant DPInv, the meaning of `shortcut` values SC and the lemma "
-    "that writing one sound node keeps the invariant); per run it is covered only indirectly (the `cc` lines check cmdOK + lockstep + replay of the model's commands on every real node array). "
+    "Zopfli theorems, the dynamic programme (goal: AllBack for the arrays UpdateNodes / ZopfliIterate produce): PARTLY proved. Proved: the invariant DPInv (BV/Lemmas/ZopfliInv.lean: every written node BackOK with an "
+    "evaluated start position, every stored `shortcut` means SC, untouched nodes carry the infinite cost) implies the command theorems (`dp_commands_lockstep`); writing one sound node keeps it (`DPInv.write`, "
+    "`Inv2.write_copy`, `Inv2.write_dict`); the sixteen distance-cache probes of UpdateNodes keep it for EVERY cost oracle (`cache_probes_sound_partial`: i32 sum, wrap/window/continuation filters, FindMatchLengthWithLimit "
+    "against the ring transferred to the text by ring_match_is_text_match, Zopfli's short-code table = RFC symbols 0..15 `zopfli_short_code`); the match loop keeps it for every cost oracle and every MatchOK match list "
+    "(`match_loop_sound_partial`: copies for every length up to the match length, dictionary references only with the match's own length). NOT proved: the glue `candidate` / UpdateNodes around the two loops (unfolding `candidate` "
+    "makes the Lean kernel compare k + 2^64 in successor form inside the bound check of queue.at — a proof-engineering obstacle), EvaluateNode (ComputeDistanceCache = the ring RingAt of the position; StartPosQueue::push keeps entries sound; "
+    "needs le(inf, literal cost) = false so that an untouched node never enters the queue), the outer loops (BrotliZopfliComputeShortestPath, ZopfliIterate, skip logic), and MatchOK for FindAllMatchesH10 (the H10 tree walk). "
+    "Until then `AllBack` is a HYPOTHESIS of path_commands_lockstep, covered per run only indirectly (the `cc` lines check cmdOK + lockstep + replay of the model's commands on every real node array). "
     "NPOSTFIX = NDIRECT = 0, one call = one meta-block, as in C01Chain."
 )
